@@ -47,3 +47,11 @@ chk("C04","model_checking",
  "three per-context append patterns x every placement of <= j layout ops (FLUSH, COMPACT, RESTART) between the appends x configurations are executed on the real engine; every REPLAY variant's exact returned key sequence is compared with the append order",
  "result streams follow tokio's deterministic single-thread order (fan-in gates are not explored); exact-case known findings in known/C04.*.json",
  "exhaustive bounded history enumeration of the real implementation against a sequence oracle","histx","DESIGN.md §3 C04")
+chk("C06","exploration",
+ "every documented type spelling, nullable unions and an enum as the type of one field x a 23-value slot alphabet x structural payload/context/type faults x failed redefinition, through parse + dispatch on the real engine; the verdict is acceptance == reference conformance, and QUERY/REPLAY afterwards show exactly the accepted events",
+ "the reference conformance function is written from the property statement; cases the statement leaves open (date-only strings for datetime fields, numeric strings for time fields, u64 above i64::MAX for times) are counted but not judged",
+ "bounded exhaustive input enumeration against a reference validator, end to end","unitx","DESIGN.md §3 C06")
+chk("C12","exploration",
+ "250 context ids x shard counts 1..8 x {clean, kill} restart: one STORE per context in each of two process lifetimes with different hash seeds, then scoped QUERY/REPLAY per context, one unscoped QUERY and the WAL directories on disk; shard tags of event ids must be constant per context, below the shard count, agree with the WAL directory, scoped reads complete, the unscoped read the union",
+ "shard tag = bits 12..22 of the event id",
+ "bounded exhaustive input x configuration enumeration against the routing invariants","unitx+histx","DESIGN.md §3 C12")
